@@ -4,7 +4,7 @@ from vlib.skyb import hx
 
 PID = "C15"
 LEAN_MODULE = "Sb.Properties.C15"
-THEOREMS = []
+THEOREMS = ["Sb.C15.mergeAll_contains", "Sb.C15.mergeAll_attained", "Sb.C15.mergeAll_some", "Sb.C15.extremaLinear_bounds", "Sb.C15.extremaLinear_attained", "Sb.C15.bounded_above_by_candidates", "Sb.C15.bounded_below_by_candidates"]
 RULE = ("trajectory files (version 1/2, with/without checksum) with 0..8 segments whose x, y, z encodings are constant, linear or cubic in "
         "every combination, scales {1, 2, 10, 127}, coordinates small, seeded and at the int16 extremes, cubic shapes with interior extrema "
         "(overshoot, S-curves, zero end velocities); each loaded through a descriptor and from memory (answers must be bitwise equal); "
